@@ -284,3 +284,24 @@ Proof.
 Qed.
 
 End JsonRt.
+
+(* ---------- the three sites that look at the aad use ONE emptiness test ----------
+   perform_encrypt (aad_of), represent_*_json (the "aad" member) and _perform_decrypt (aad_of): an empty aad
+   (Some []) is treated exactly like an absent one (None) at all three *)
+Lemma aad_empty_is_absent s p : aad_of s p (Some []) = aad_of s p None /\ aad_of s p None = p.
+Proof. destruct s; split; reflexivity. Qed.
+
+Lemma represent_aad_member O o x data :
+  e_ser o <> Compact -> represent_json O o x = Ok data ->
+  py_in (PStr (s_ "aad")) data =
+    Ok (match e_aad o with Some (_ :: _) => true | _ => false end).
+Proof.
+  intros N RJ. unfold represent_json in RJ. inv_bind RJ.
+  destruct (e_ser o); [contradiction | |].
+  - destruct (x_recips x) as [|r' rs]; [discriminate |]. inversion RJ; subst data. clear RJ.
+    unfold recip_members.
+    destruct (e_aad o) as [[|ax al]|]; destruct (py_truth (e_unprot o)); destruct (py_truth (r_header r'));
+      destruct (r_ek r') as [[|e0 ek]|]; look; reflexivity.
+  - inversion RJ; subst data. clear RJ.
+    destruct (e_aad o) as [[|ax al]|]; destruct (py_truth (e_unprot o)); look; reflexivity.
+Qed.
